@@ -24,7 +24,8 @@ ASSUMPTIONS = ['lookback distances are positive integers (0 and negative distanc
                'but not claimed)',
                'cos/sin entries of the modulo-performance input are rebuilt in the harness from the modelled layout '
                '(table, row) with the formulas of PerformanceModuloEncoding.__init__ and compared bit-exactly',
-               'the model follows note_seq WITH notes/C08-fix-1.diff and notes/C08-fix-2.diff applied']
+               'the model follows note_seq with the two C08 fixes (notes/C08-fix-1.diff, notes/C08-fix-2.diff; committed to /repo)',
+               'OptionalEventSequenceEncoder / MultipleEventSequenceEncoder (op wrappers) are checked on the implementation only']
 EXHAUSTIVE = {'quick': False, 'thorough': True}
 
 NO_EVENT, NOTE_OFF = -2, -1
@@ -557,6 +558,8 @@ def oracle(case, io):
                 why = _keymelody_input_problem(_dense(ins[j][0]), es, p, c)
                 if why:
                     return dict(where, kind='keymelody-input-layout', position=p, events=es, block=why)
+            if op == 'pianoroll' and _dense(ins[j][0]) != [1 if k in es[p] else 0 for k in range(c['size'])]:
+                return dict(where, kind='pianoroll-input-is-not-the-pitch-set', position=p, events=es)
             if op == 'modulo_perf':
                 why = _modulo_input_problem(ins[j][0], es[p], c)
                 if why:
@@ -859,7 +862,9 @@ def cases(rng, tier, n=None):
         ds = _gen_dists(rng)
         bits = rng.choice([0, 1, 2, 5, 7, 8])
         es = _gen_seq(rng, _mel_alphabet(mn, mx, rng, 0.04), ds, 60, NO_EVENT)
-        out.append(_case('keymelody', {'mn': mn, 'mx': mx, 'ds': ds, 'bits': bits}, es, _positions(rng, len(es)),
+        # positions outside the sequence are not generated for this encoder: with an empty distance list the code
+        # neither raises nor means anything there (garbage in, garbage out), so an edit may legitimately change it
+        out.append(_case('keymelody', {'mn': mn, 'mx': mx, 'ds': ds, 'bits': bits}, es, list(range(len(es))),
                          _labels(rng, mx - mn + 2 + len(ds))))
     for _ in range(70 * mult):           # plain one-hot and one-hot index
         mn, mx = _mel_cfg(rng)
@@ -991,5 +996,5 @@ META = {
                    'the real encoder objects by a differential run over generated and exhaustive small histories.'),
     'level_note': ('Trusted: Coq kernel; the hand-written models in Model/{EncDec,Lookback,KeyMelody,NotePerfEnc,PianorollEnc}.v '
                    '(tied by correspondence only); float cos/sin entries of the modulo-performance input are rebuilt by the '
-                   'harness from the modelled layout. The model follows note_seq with notes/C08-fix-1/2.diff applied.'),
+                   'harness from the modelled layout. Input layouts of the lookback, key-melody, note-performance, pianoroll and (count/blocks only) modulo encoders are theorems and are also evaluated by the oracle.'),
 }
